@@ -2,15 +2,18 @@
 
 (a) PROOF   GrassProofs.C19 (spans in bounds / on character boundaries / located with a valid
             location, renderer prefix and totality, logger trace, quiet).
-(b) TIE     * logging programs of the mini language of Grass/Diag.lean (diagnostics in loops,
-              conditionals, mixins, functions, imported files) x {quiet off/on}: grass's collected
-              logs and outcome == the model's trace and outcome;
+(b) TIE     * logging programs of the mini language of Grass/Diag.lean (diagnostics in @for/@each/@while
+              loops, conditionals, mixins with content blocks, functions, imported files, module files
+              loaded by @use/@forward) in varying lay-outs x {quiet off/on}: grass's outcome and its
+              ordered list of (kind, file, line, column, message) == the model's (driver op `tracex`;
+              line and column computed by the model from the file texts);
             * the renderer: grass's `Display` output == `render` of the model, byte for byte, for
               every failing input in both unicode modes;
             * span arithmetic of re-lexed selector text: the span grass reports for "Expected
               identifier." at the end of a selector == `Lexer.ofString … |>.spanAtIndex`.
 (c) DIRECT  on grass's own output: never a panic in the diagnostics path, kind == parse, the named
-            file was loaded, the location satisfies `spanLocOk` (Lean driver), the rendering starts
+            file was loaded, the location satisfies `spanLocOk` (Lean driver; counted per message class
+            and per named error-site kind, see `site_cases`), the rendering starts
             with `Error: <message>` in both modes, @error shows the inspected value, nothing on
             fd 1/2 with a custom logger, nothing logged under quiet, StdLogger writes to stderr only.
 """
@@ -62,12 +65,15 @@ DIAG_PANIC = re.compile(r"codemap|lexer\.rs|/error\.rs|compiler/src/lib\.rs|char
 # part A — logging programs (mini language of Grass/Diag.lean)
 # ----------------------------------------------------------------------------------------------
 class Gen:
-    """Random programs; emits SCSS text per file (one directive per line) and the token stream the
-    Lean driver reads, with the line numbers taken from the printer."""
+    """Random projects over the mini language of Grass/Diag.lean.  Files 1.. are either *imported*
+    files (`@import`, also nested in a style rule, also repeatedly) or *modules* (`@use … as *` /
+    `@forward`, loaded once); names of mixins/functions are unique in the project and references go to
+    members visible at that point (plus a few deliberate misses)."""
 
     def __init__(self, rng, size):
         self.rng, self.size = rng, size
         self.nvar = 0
+        self.imps = []          # imported-kind files that may be imported nested in a style rule here
 
     def fresh(self):
         self.nvar += 1
@@ -86,110 +92,255 @@ class Gen:
             return ("s", self.rng.randrange(10))
         return ("i", self.rng.randrange(-3, 12))
 
+    def top_expr(self, scope, funcs):
+        """The value of a directive: sometimes the two-element list `a b` (both sides evaluated — several
+        function calls in one statement)."""
+        if self.rng.random() < (0.3 if funcs else 0.08):
+            return ("p", self.expr(scope, funcs, 1), self.expr(scope, funcs, 1))
+        return self.expr(scope, funcs)
+
     # statements -------------------------------------------------------------------------------
     def stmts(self, ctx, scope, mixins, funcs, depth, n=None):
         n = n if n is not None else self.rng.choice([1, 1, 2, 2, 3])
         return [self.stmt(ctx, scope, mixins, funcs, depth) for _ in range(n)]
 
     def stmt(self, ctx, scope, mixins, funcs, depth):
-        r = self.rng.random()
-        if depth >= 3 or r < 0.30:
-            return ("D", self.expr(scope, funcs))
-        if r < 0.55:
-            return ("W", self.expr(scope, funcs))
-        if r < 0.565:
-            return ("E", self.expr(scope, funcs))
-        if r < 0.72:
+        """ctx = (where, in_mixin): where in top|mixin|func|content; in_mixin = lexically inside @mixin."""
+        rng = self.rng
+        where, in_mixin = ctx
+        r = rng.random()
+        if depth >= 3 or r < 0.27:
+            return ("D", self.top_expr(scope, funcs))
+        if r < 0.48:
+            return ("W", self.top_expr(scope, funcs))
+        if r < 0.495:
+            return ("E", self.top_expr(scope, funcs))
+        if r < 0.58:
             x = self.fresh()
-            a, b = self.rng.randrange(-2, 5), self.rng.randrange(-2, 5)
-            return ("F", x, a, b, self.rng.random() < 0.5,
+            a, b = rng.randrange(-2, 5), rng.randrange(-2, 5)
+            return ("F", x, a, b, rng.random() < 0.5, self.stmts(ctx, scope + [x], mixins, funcs, depth + 1))
+        if r < 0.65:
+            x = self.fresh()
+            vals = [("s", rng.randrange(10)) if rng.random() < 0.5 else ("i", rng.randrange(-3, 12))
+                    for _ in range(rng.choice([0, 1, 2, 3, 3, 4]))]
+            return ("C", x, vals, self.stmts(ctx, scope + [x], mixins, funcs, depth + 1))
+        if r < 0.71:
+            x = self.fresh()
+            return ("H", x, rng.randrange(-1, 3), rng.randrange(0, 5), rng.choice([1, 1, 2, 3]),
                     self.stmts(ctx, scope + [x], mixins, funcs, depth + 1))
-        if r < 0.84:
-            if scope and self.rng.random() < 0.7:
-                c = ("q", self.rng.choice(scope), self.rng.randrange(-1, 4))
-            elif self.rng.random() < 0.02:
+        if r < 0.80:
+            if scope and rng.random() < 0.7:
+                c = ("q", rng.choice(scope), rng.randrange(-1, 4))
+            elif rng.random() < 0.02:
                 c = ("q", 95, 1)
             else:
-                c = ("t",) if self.rng.random() < 0.5 else ("f",)
+                c = ("t",) if rng.random() < 0.5 else ("f",)
             return ("I", c, self.stmts(ctx, scope, mixins, funcs, depth + 1),
-                    self.stmts(ctx, scope, mixins, funcs, depth + 1, n=self.rng.choice([0, 1, 2])))
-        if r < 0.90 and funcs:
-            return ("L", ("c", self.rng.choice(funcs), self.expr(scope, funcs, 1)))
-        if ctx == "func":
-            return ("W", self.expr(scope, funcs))
-        if r < 0.94:
-            return ("B", self.stmts(ctx, scope, mixins, funcs, depth + 1))
-        # @include
-        if mixins and self.rng.random() < 0.97:
-            m, hasp = self.rng.choice(mixins)
-            return ("N", m, self.expr(scope, funcs) if hasp else None)
-        if self.rng.random() < 0.25:
+                    self.stmts(ctx, scope, mixins, funcs, depth + 1, n=rng.choice([0, 1, 2])))
+        if r < 0.85 and funcs:
+            return ("L", self.top_expr(scope, funcs) if rng.random() < 0.5 else
+                    ("c", rng.choice(funcs), self.expr(scope, funcs, 1)))
+        if where == "func":
+            return ("W", self.top_expr(scope, funcs))
+        if in_mixin and r < 0.89:
+            return ("T",)
+        if r < 0.92:
+            body = self.stmts(ctx, scope, mixins, funcs, depth + 1)
+            if where == "top" and depth == 0 and self.imps and rng.random() < 0.5:
+                body.insert(rng.randrange(len(body) + 1), ("P", rng.choice(self.imps)))   # nested @import
+            return ("B", body)
+        # @include, with or without a content block
+        if mixins and rng.random() < 0.97:
+            m, hasp, hasc = rng.choice(mixins)
+            arg = self.expr(scope, funcs) if hasp else None
+            if rng.random() < (0.75 if hasc else 0.04):
+                return ("K", m, arg, self.stmts(("content", in_mixin), scope, mixins, funcs, depth + 1))
+            return ("N", m, arg)
+        if rng.random() < 0.25:
             return ("N", 77, None)                              # "Undefined mixin."
-        return ("D", self.expr(scope, funcs))
+        return ("D", self.top_expr(scope, funcs))
 
     def project(self):
         rng = self.rng
-        nfiles = rng.choice([1, 1, 2, 2, 3])
-        names = ["main.scss"] + [["_p1.scss", "sub/p2.scss", "_q3.scss"][k] for k in range(nfiles - 1)]
-        urls = [None, "p1", "sub/p2", "q3"]
-        # definitions live in files; file k may import only files with a larger index
+        nfiles = rng.choice([1, 1, 2, 2, 3, 3, 4, 5])
+        allnames = ["main.scss", "_p1.scss", "_p2.scss", "_q3.scss", "_r4.scss"]
+        urls = [None, "p1", "p2", "q3", "r4"]
+        kinds = ["main"] + [rng.choice(["imp", "mod"]) for _ in range(nfiles - 1)]
+        if nfiles > 1 and rng.random() < 0.5:
+            # the last file refers to no other file: it may live in a directory (files there are looked
+            # up relative to it only)
+            allnames[nfiles - 1], urls[nfiles - 1] = f"sub/{urls[nfiles - 1]}.scss", f"sub/{urls[nfiles - 1]}"
+        names = allnames[:nfiles]
         files = [[] for _ in range(nfiles)]
-        known = [None] * nfiles       # (mixins, funcs) available after executing file k's top level
+        defines = [None] * nfiles     # what executing file k defines in the importer's scope (imp files)
+        exports = [None] * nfiles     # what `@use "k" as *` makes visible (mod files)
         nm = nf = 0
         for k in reversed(range(nfiles)):
-            mixins, funcs = [], []
+            mixins, funcs = [], []     # visible at the point reached
+            own_m, own_f = [], []      # defined in this file's scope (own declarations + imported ones)
+            fw_m, fw_f = [], []
             body = []
-            for j in range(k + 1, nfiles):
+            later_mods = [j for j in range(k + 1, nfiles) if kinds[j] == "mod"]
+            later_imps = [j for j in range(k + 1, nfiles) if kinds[j] == "imp"]
+            if kinds[k] != "imp":
+                for j in later_mods:
+                    if rng.random() < 0.3:
+                        body.append(("Y", j, True))
+                        fw_m += exports[j][0]
+                        fw_f += exports[j][1]
+                    if rng.random() < (0.8 if k == 0 else 0.55):
+                        body.append(("Y", j, False))
+                        mixins += exports[j][0]
+                        funcs += exports[j][1]
+                rng.shuffle(body)
+            for j in later_imps:
                 if rng.random() < (0.8 if k == 0 else 0.4):
                     body.append(("P", j))
-                    mixins += known[j][0]
-                    funcs += known[j][1]
+                    own_m += defines[j][0]
+                    own_f += defines[j][1]
+            mixins += own_m
+            funcs += own_f
+            self.imps = later_imps if kinds[k] != "imp" or rng.random() < 0.5 else []
             for _ in range(rng.choice([0, 1, 1, 2])):
                 if rng.random() < 0.5:
                     p = self.fresh() if rng.random() < 0.5 else None
-                    b = self.stmts("mixin", [p] if p else [], list(mixins), list(funcs), 1)
+                    saved, self.imps = self.imps, []
+                    b = self.stmts(("mixin", True), [p] if p else [], list(mixins), list(funcs), 1)
+                    self.imps = saved
+                    ent = (nm, p is not None, mentions_content(b))
                     body.append(("M", nm, p, b))
-                    mixins.append((nm, p is not None))
+                    mixins.append(ent)
+                    own_m.append(ent)
                     nm += 1
                 else:
                     p = self.fresh()
-                    b = self.stmts("func", [p], [], list(funcs), 1, n=rng.choice([0, 1, 2]))
+                    b = self.stmts(("func", False), [p], [], list(funcs), 1, n=rng.choice([0, 1, 2]))
                     body.append(("U", nf, p, b, self.expr([p], list(funcs), 1)))
                     funcs.append(nf)
+                    own_f.append(nf)
                     nf += 1
-            body += self.stmts("top", [], list(mixins), list(funcs), 0,
+            body += self.stmts(("top", False), [], list(mixins), list(funcs), 0,
                                n=rng.choice([1, 2, 3]) if k else self.size)
-            if k == 0 and rng.random() < 0.3 and nfiles > 1:
-                body.append(("P", rng.randrange(1, nfiles)))     # a second import: runs again
-                body += self.stmts("top", [], list(mixins), list(funcs), 0, n=1)
+            if kinds[k] != "imp" and rng.random() < 0.3 and later_imps:
+                body.append(("P", rng.choice(later_imps)))       # a second import: runs again
+                body += self.stmts(("top", False), [], list(mixins), list(funcs), 0, n=1)
             files[k] = body
-            known[k] = (mixins, funcs)
-        return names, urls, files
+            defines[k] = (own_m, own_f)
+            exports[k] = (own_m + fw_m, own_f + fw_f)
+        return names, urls, files, kinds
 
 
-def e_text(e):
-    if e[0] == "i":
-        return str(e[1])
-    if e[0] == "s":
-        return f'"s{e[1]}"'
+def mentions_content(ss):
+    for s in ss:
+        if s[0] == "T":
+            return True
+        if s[0] in "FCHBK" and mentions_content(s[-1]):
+            return True
+        if s[0] == "I" and (mentions_content(s[2]) or mentions_content(s[3])):
+            return True
+    return False
+
+
+def has_undef(e):
     if e[0] == "v":
-        return f"$v{e[1]}"
-    return f"f{e[1]}({e_text(e[2])})"
+        return e[1] >= 90
+    if e[0] == "c":
+        return has_undef(e[2])
+    if e[0] == "p":
+        return has_undef(e[1]) or has_undef(e[2])
+    return False
 
 
 def e_tok(e):
     if e[0] == "c":
         return f"c {e[1]} {e_tok(e[2])}"
+    if e[0] == "p":
+        return f"p {e_tok(e[1])} {e_tok(e[2])}"
     return f"{e[0]} {e[1]}"
 
 
 class Printer:
-    def __init__(self, urls):
-        self.lines, self.urls = [], urls
+    """Prints one file and the token stream of its statements.  A statement's *site* is the byte offset
+    of its first character (`@` of a directive).  The lay-out varies: line ends (LF / CRLF), indentation
+    (spaces / tabs), text before a directive on its line (comment with multi-byte characters, another
+    statement), what separates `@debug` from its value (blanks, tab, comment, line break, `//` comment),
+    and line breaks inside the value."""
+
+    def __init__(self, urls, rng, plain=False):
+        self.urls, self.rng, self.plain = urls, rng, plain
+        self.text = ""
+        self.eol = "\n" if plain or rng.random() < 0.75 else "\r\n"
+        self.unit = "  " if plain or rng.random() < 0.7 else "\t"
+        self.expect = set()          # (kind, line, col) of every @debug/@warn value, python's own count
+        self.layout = collections.Counter()
+        if self.eol == "\r\n":
+            self.layout["crlf-file"] += 1
+        if self.unit == "\t":
+            self.layout["tab-indent"] += 1
+        if not plain and rng.random() < 0.25:
+            self.text += rng.choice(["// é€😀", "/* ü\t日本 */", "// x"]) + self.eol
+            self.layout["leading-comment"] += 1
+
+    def pos(self):
+        return len(self.text.encode("utf-8"))
+
+    def linecol(self):
+        i = self.text.rfind("\n")
+        return self.text.count("\n") + 1, len(self.text) - i
 
     def emit(self, indent, text):
-        self.lines.append("  " * indent + text)
-        return len(self.lines)                      # 1-based line of what was just printed
+        """One line; returns the site (byte offset) of `text`."""
+        self.text += self.unit * indent
+        site = self.pos()
+        self.text += text + self.eol
+        return site
+
+    def e_text(self, e, brk, ind):
+        if e[0] == "i":
+            return str(e[1])
+        if e[0] == "s":
+            return f'"s{e[1]}"'
+        if e[0] == "v":
+            return f"$v{e[1]}"
+        nl = self.eol + self.unit * (ind + 2)
+        if e[0] == "p":
+            sep = " "
+            if brk and self.rng.random() < 0.4:
+                sep = self.rng.choice([nl, " /* é */ ", "  ", "\t"])
+                self.layout["break-in-value"] += 1
+            return self.e_text(e[1], brk, ind) + sep + self.e_text(e[2], brk, ind)
+        if brk and self.rng.random() < 0.25:
+            self.layout["break-in-call"] += 1
+            return f"f{e[1]}({nl}{self.e_text(e[2], brk, ind)}{nl})"
+        return f"f{e[1]}({self.e_text(e[2], brk, ind)})"
+
+    def directive(self, k, e, ind):
+        rng = self.rng
+        word = {"D": "@debug", "W": "@warn", "E": "@error"}[k]
+        free = not self.plain and not has_undef(e)          # line breaks allowed (no error line at stake)
+        self.text += self.unit * ind
+        if not self.plain and rng.random() < 0.2:
+            pre = rng.choice(["/* é€ */ ", "$tmp: \"ü😀\";\t", "/*\t*/", "$tmp: 1; "])
+            self.text += pre
+            self.layout["text-before-directive"] += 1
+        site = self.pos()
+        gap = " "
+        if not self.plain and rng.random() < 0.4:
+            choices = ["  ", "\t", " /* é😀 */ ", "/**/", " \t "]
+            if free:
+                choices += [self.eol + self.unit * (ind + 2), " // c é" + self.eol + self.unit * (ind + 1),
+                            self.eol + self.eol + "\t", " /* a" + self.eol + " b */ "]
+            gap = rng.choice(choices)
+            self.layout["gap=" + ("line-break" if self.eol in gap else "tab" if "\t" in gap else
+                                  "comment" if "/*" in gap else "spaces")] += 1
+        self.text += word + gap
+        if k != "E":
+            line, col = self.linecol()
+            self.expect.add(("debug" if k == "D" else "warn", line, col))
+        self.text += self.e_text(e, free, ind)
+        self.text += rng.choice([";", ";", ";", " ;"]) if not self.plain else ";"
+        self.text += self.eol
+        return f"{k} {site} {e_tok(e)}"
 
     def block(self, ss, ind):
         toks = ["["]
@@ -201,22 +352,35 @@ class Printer:
     def stmt(self, s, ind):
         k = s[0]
         if k in "DWE":
-            word = {"D": "@debug", "W": "@warn", "E": "@error"}[k]
-            ln = self.emit(ind, f"{word} {e_text(s[1])};")
-            return f"{k} {ln} {e_tok(s[1])}"
+            return self.directive(k, s[1], ind)
         if k == "L":
-            ln = self.emit(ind, f"$tmp: {e_text(s[1])};")
-            return f"L {ln} {e_tok(s[1])}"
+            site = self.emit(ind, f"$tmp: {self.e_text(s[1], False, ind)};")
+            return f"L {site} {e_tok(s[1])}"
         if k == "F":
             _, x, a, b, inc, body = s
-            ln = self.emit(ind, f"@for $v{x} from {a} {'through' if inc else 'to'} {b} {{")
+            site = self.emit(ind, f"@for $v{x} from {a} {'through' if inc else 'to'} {b} {{")
             t = self.block(body, ind + 1)
             self.emit(ind, "}")
-            return f"F {ln} {x} {a} {b} {1 if inc else 0} {t}"
+            return f"F {site} {x} {a} {b} {1 if inc else 0} {t}"
+        if k == "C":
+            _, x, vals, body = s
+            vt = ", ".join(self.e_text(v, False, ind) for v in vals) if vals else "()"
+            site = self.emit(ind, f"@each $v{x} in {vt} {{")
+            t = self.block(body, ind + 1)
+            self.emit(ind, "}")
+            return f"C {site} {x} {len(vals)} " + "".join(e_tok(v) + " " for v in vals) + t
+        if k == "H":
+            _, x, init, bound, step, body = s
+            self.emit(ind, f"$v{x}: {init};")
+            site = self.emit(ind, f"@while $v{x} < {bound} {{")
+            t = self.block(body, ind + 1)
+            self.emit(ind + 1, f"$v{x}: $v{x} + {step};")
+            self.emit(ind, "}")
+            return f"H {site} {x} {init} {bound} {step} {t}"
         if k == "I":
             _, c, thn, els = s
             ct = {"t": "true", "f": "false"}.get(c[0]) or f"$v{c[1]} == {c[2]}"
-            ln = self.emit(ind, f"@if {ct} {{")
+            site = self.emit(ind, f"@if {ct} {{")
             t1 = self.block(thn, ind + 1)
             if els:
                 self.emit(ind, "} @else {")
@@ -225,7 +389,7 @@ class Printer:
                 t2 = "[ ]"
             self.emit(ind, "}")
             ctok = c[0] if c[0] in "tf" else f"q {c[1]} {c[2]}"
-            return f"I {ln} {ctok} {t1} {t2}"
+            return f"I {site} {ctok} {t1} {t2}"
         if k == "B":
             self.emit(ind, ".b {")
             self.emit(ind + 1, "c: d;")
@@ -242,30 +406,51 @@ class Printer:
             _, f, p, body, ret = s
             self.emit(ind, f"@function f{f}($v{p}) {{")
             t = self.block(body, ind + 1)
-            rl = self.emit(ind + 1, f"@return {e_text(ret)};")
+            rl = self.emit(ind + 1, f"@return {self.e_text(ret, False, ind)};")
             self.emit(ind, "}")
             return f"U {f} {p} {t} {rl} {e_tok(ret)}"
         if k == "N":
             _, m, arg = s
-            ln = self.emit(ind, f"@include m{m}" + (f"({e_text(arg)})" if arg else "") + ";")
-            return f"N {ln} {m} " + (e_tok(arg) if arg else "_")
+            site = self.emit(ind, f"@include m{m}" + (f"({self.e_text(arg, False, ind)})" if arg else "") + ";")
+            return f"N {site} {m} " + (e_tok(arg) if arg else "_")
+        if k == "K":
+            _, m, arg, body = s
+            site = self.emit(ind, f"@include m{m}" + (f"({self.e_text(arg, False, ind)})" if arg else "") + " {")
+            t = self.block(body, ind + 1)
+            self.emit(ind, "}")
+            return f"K {site} {m} " + (e_tok(arg) if arg else "_") + " " + t
+        if k == "T":
+            site = self.emit(ind, "@content;")
+            return f"T {site}"
         if k == "P":
-            ln = self.emit(ind, f'@import "{self.urls[s[1]]}";')
-            return f"P {ln} {s[1]}"
+            site = self.emit(ind, f'@import "{self.urls[s[1]]}";')
+            return f"P {site} {s[1]}"
+        if k == "Y":
+            site = self.emit(ind, f'@forward "{self.urls[s[1]]}";' if s[2] else f'@use "{self.urls[s[1]]}" as *;')
+            return f"Y {site} {s[1]} {1 if s[2] else 0}"
         raise ValueError(k)
 
 
-def render_project(names, urls, files):
-    texts, toks = {}, []
+def render_project(names, urls, files, rng, plain=False):
+    """-> texts {name: text}, request tail `<n> <hex text>… <stmts>…`, expected event places, lay-outs."""
+    texts, toks, expect, layout = {}, [], set(), collections.Counter()
     for name, body in zip(names, files):
-        p = Printer(urls)
+        p = Printer(urls, rng, plain)
         toks.append(p.block(body, 0))
-        texts[name] = "\n".join(p.lines) + "\n"
-    return texts, " ".join(toks)
+        texts[name] = p.text
+        expect |= {(k, name, l, c) for k, l, c in p.expect}
+        layout.update(p.layout)
+    tail = f"{len(names)} " + " ".join(hexs(texts[n]) for n in names) + " " + " ".join(toks)
+    return texts, tail, expect, layout
+
+
+ERR_TEXT = {"undefvar": "Undefined variable.", "undefmixin": "Undefined mixin.",
+            "nocontent": "Mixin doesn't accept a content block."}
 
 
 def parse_trace(ans, names):
-    """driver answer -> (outcome tuple, [(kind, file, line, msg)], visited) or None (unsupported)."""
+    """driver answer -> (outcome tuple, [(kind, file, line, col, msg)], visited) or None (unsupported).
+    outcome: ("ok",) | ("err", file, line, col | None, message)."""
     m = re.match(r"ok (\S+) (\d+) \|(.*)$", ans)
     if not m:
         return None
@@ -273,27 +458,34 @@ def parse_trace(ans, names):
     if st == "ok":
         outcome = ("ok",)
     else:
-        _, kind, f, l, msg = st.split(":")
-        text = {"user": unhex(msg), "undefvar": "Undefined variable.", "undefmixin": "Undefined mixin."}[kind]
-        outcome = ("err", names[int(f)], int(l), text)
+        _, kind, f, l, c, msg = st.split(":")
+        text = unhex(msg) if kind == "user" else ERR_TEXT[kind]
+        outcome = ("err", names[int(f)], int(l), None if c == "-" else int(c), text)
     evs = []
     for t in m.group(3).split():
-        k, f, l, msg = t.split(":")
-        evs.append((k, names[int(f)], int(l), unhex(msg)))
+        k, f, l, c, msg = t.split(":")
+        evs.append((k, names[int(f)], int(l), int(c), unhex(msg)))
     return outcome, evs, int(m.group(2))
 
 
-def impl_outcome(a):
+def impl_outcome(a, with_col=True):
     if a.get("status") == "ok":
         return ("ok",)
     if a.get("status") == "err" and a.get("err", {}).get("kind") == "parse":
         e = a["err"]
-        return ("err", e["file"], e["begin_line"] + 1, e["message"])
+        return ("err", e["file"], e["begin_line"] + 1, e["begin_col"] + 1 if with_col else None, e["message"])
     return ("status", a.get("status"), (a.get("panic") or str(a.get("err")))[:200])
 
 
+def outcome_matches(io, mo):
+    """The model gives the column only where it models it (@error: where the value begins)."""
+    if io[0] == "err" and mo[0] == "err" and mo[3] is None:
+        return io[:3] + io[4:] == mo[:3] + mo[4:]
+    return io == mo
+
+
 def impl_events(a):
-    return [(l["kind"], l["file"], l["line"], l["msg"]) for l in a.get("logs", [])]
+    return [(l["kind"], l["file"], l["line"], l["col"], l["msg"]) for l in a.get("logs", [])]
 
 
 def map_confirm(pool, jobs, timeout, retry_timeout):
@@ -316,74 +508,119 @@ def std_job(job):
 
 def expected_stderr_ok(evs, captured):
     """StdLogger (logger.rs:19-40): `file:line DEBUG: msg` / `Warning: msg\\n    ./file:line:col`."""
-    pat = ""
-    for k, f, l, msg in evs:
+    want = ""
+    for k, f, l, c, msg in evs:
         if k == "debug":
-            pat += re.escape(f"{f}:{l} DEBUG: {msg}\n")
+            want += f"{f}:{l} DEBUG: {msg}\n"
         else:
-            pat += re.escape(f"Warning: {msg}\n    ./{f}:{l}:") + r"\d+\n"
-    return re.fullmatch(pat, captured) is not None
+            want += f"Warning: {msg}\n    ./{f}:{l}:{c}\n"
+    return want == captured
+
+
+# fixed regression programs: D12 (@warn in a loop / mixin included twice), quiet, imports; then one small
+# program per construct added in round 3 (@each, @while, @use once, @forward, @content, pairs, nested import)
+FIXED = [
+    (["main.scss"], [None], [[("F", 1, 1, 3, True, [("W", ("v", 1))])]]),
+    (["main.scss"], [None], [[("M", 0, None, [("W", ("s", 1)), ("D", ("i", 2))]), ("N", 0, None), ("N", 0, None)]]),
+    (["main.scss"], [None], [[("D", ("v", 90)), ("W", ("i", 1))]]),      # quiet skips evaluating @debug
+    (["main.scss", "_p1.scss"], [None, "p1"],
+     [[("P", 1), ("N", 0, ("i", 5)), ("D", ("c", 0, ("s", 3))), ("E", ("c", 0, ("i", 7)))],
+      [("M", 0, 2, [("W", ("v", 2))]), ("U", 0, 3, [("D", ("v", 3))], ("v", 3))]]),
+    (["main.scss"], [None], [[("C", 1, [("i", 1), ("s", 2), ("i", 5)], [("D", ("v", 1)), ("W", ("v", 1))]),
+                              ("C", 2, [], [("D", ("v", 2))])]]),
+    (["main.scss"], [None], [[("H", 1, 0, 3, 2, [("W", ("v", 1))]), ("H", 2, 2, 2, 1, [("D", ("v", 2))]),
+                              ("U", 0, 3, [("H", 4, 0, 2, 1, [("D", ("v", 4))])], ("v", 3)), ("D", ("c", 0, ("i", 1)))]]),
+    (["main.scss", "_p1.scss", "sub/p2.scss"], [None, "p1", "sub/p2"],
+     [[("Y", 1, False), ("Y", 2, False), ("D", ("i", 0)), ("N", 1, None), ("D", ("c", 1, ("i", 3)))],
+      [("Y", 2, False), ("D", ("i", 1)), ("M", 1, None, [("W", ("s", 1)), ("N", 2, None)]),
+       ("U", 1, 1, [("D", ("v", 1))], ("c", 2, ("v", 1)))],
+      [("D", ("i", 2)), ("M", 2, None, [("W", ("i", 22))]), ("U", 2, 2, [("W", ("v", 2))], ("i", 5))]]),
+    (["main.scss", "_p1.scss", "sub/p2.scss"], [None, "p1", "sub/p2"],          # members of a used module's uses: not visible
+     [[("Y", 1, False), ("N", 2, None)], [("Y", 2, False), ("D", ("i", 1))], [("D", ("i", 2)), ("M", 2, None, [("W", ("i", 22))])]]),
+    (["main.scss", "_p1.scss", "sub/p2.scss"], [None, "p1", "sub/p2"],          # … but forwarded ones are
+     [[("Y", 1, False), ("N", 2, None)], [("Y", 2, True), ("D", ("i", 1))], [("D", ("i", 2)), ("M", 2, None, [("W", ("i", 22))])]]),
+    (["main.scss"], [None],
+     [[("M", 0, 1, [("D", ("v", 1)), ("T",), ("T",)]), ("M", 1, None, [("K", 0, ("i", 1), [("W", ("s", 3)), ("T",)])]),
+       ("K", 1, None, [("D", ("s", 4))]), ("N", 0, ("i", 2)), ("M", 2, None, [("D", ("i", 9))]), ("K", 2, None, [("D", ("i", 1))])]]),
+    (["main.scss"], [None],
+     [[("U", 1, 1, [("D", ("v", 1))], ("v", 1)), ("D", ("p", ("c", 1, ("i", 1)), ("c", 1, ("s", 2)))),
+       ("W", ("p", ("c", 1, ("i", 1)), ("c", 1, ("s", 2)))), ("L", ("p", ("c", 1, ("i", 3)), ("c", 1, ("i", 4)))),
+       ("E", ("p", ("c", 1, ("i", 1)), ("c", 1, ("s", 2))))]]),
+    (["main.scss", "_p1.scss"], [None, "p1"],
+     [[("B", [("P", 1), ("N", 0, None)]), ("N", 0, None)], [("D", ("i", 1)), ("M", 0, None, [("W", ("i", 2))])]]),
+]
 
 
 def run_logging(ck, pool, n_programs, failing, first=True):
     rng = ck.rng
     projects = []
-    # fixed regression programs first: D12 (@warn in a loop / mixin included twice), quiet, imports
-    fixed = [
-        (["main.scss"], [None], [[("F", 1, 1, 3, True, [("W", ("v", 1))])]]),
-        (["main.scss"], [None], [[("M", 0, None, [("W", ("s", 1)), ("D", ("i", 2))]), ("N", 0, None), ("N", 0, None)]]),
-        (["main.scss"], [None], [[("D", ("v", 90)), ("W", ("i", 1))]]),      # quiet skips evaluating @debug
-        (["main.scss", "_p1.scss"], [None, "p1"],
-         [[("P", 1), ("N", 0, ("i", 5)), ("D", ("c", 0, ("s", 3))), ("E", ("c", 0, ("i", 7)))],
-          [("M", 0, 2, [("W", ("v", 2))]), ("U", 0, 3, [("D", ("v", 3))], ("v", 3))]]),
-    ]
     if first:
-        projects += fixed
-    else:
-        fixed = []
+        # every fixed program once in the plain lay-out and once in a random lay-out
+        projects += [(n, u, f, None, True) for n, u, f in FIXED] + [(n, u, f, None, False) for n, u, f in FIXED]
+    n_fixed = len(projects)
     for i in range(n_programs):
         g = Gen(rng, size=rng.choice([2, 3, 4, 6]))
-        projects.append(g.project())
+        projects.append(g.project() + (False,))
     jobs, lines, meta = [], [], []
-    for idx, (names, urls, files) in enumerate(projects):
-        texts, toks = render_project(names, urls, files)
+    for idx, (names, urls, files, kinds, plain) in enumerate(projects):
+        texts, tail, expect, layout = render_project(names, urls, files, rng, plain)
         base = compile_job(files=texts, entry="main.scss")
         jq = compile_job(files=texts, entry="main.scss", quiet=True)
-        with_std = idx % 4 == 0 or idx < len(fixed)
+        with_std = idx % 4 == 0 or idx < n_fixed
         js = [base, jq] + ([std_job(base), std_job(jq)] if with_std else [])
-        meta.append((names, texts, toks, len(jobs), len(js)))
+        meta.append((names, texts, tail, len(jobs), len(js), expect, layout, kinds))
         jobs += js
-        lines.append(f"diag trace 0 0 {toks}")
-        lines.append(f"diag trace 1 0 {toks}")
+        lines.append(f"diag tracex 0 0 {tail}")
+        lines.append(f"diag tracex 1 0 {tail}")
     answers = map_confirm(pool, jobs, 10, 40)
     outs = driver(lines)
-    for idx, (names, texts, toks, off, nj) in enumerate(meta):
+    for idx, (names, texts, tail, off, nj, expect, layout, kinds) in enumerate(meta):
         a_loud, a_quiet = answers[off], answers[off + 1]
         m_loud, m_quiet = parse_trace(outs[2 * idx], names), parse_trace(outs[2 * idx + 1], names)
         if m_loud is None or m_quiet is None:
             ck.cov["unsupported_dropped"] += 1
             ck.hist("logging:unsupported:" + outs[2 * idx][:24])
             continue
-        case = {"files": texts, "entry": "main.scss", "program": toks}
+        toks = tail.split(" ", 1 + len(names))[-1]
+        case = {"files": texts, "entry": "main.scss", "program": tail}
         n_ev = len(m_loud[1])
         nontrivial = n_ev > 0
-        ck.count(("log", toks), nontrivial)
+        ck.count(("log", tail), nontrivial)
         ck.hist("logging:files=%d" % len(names))
+        if kinds:
+            ck.hist("logging:file-kinds=" + "+".join(sorted(set(kinds[1:]))) if len(kinds) > 1 else "logging:file-kinds=single")
         ck.hist("logging:events=" + ("0" if n_ev == 0 else "1-3" if n_ev <= 3 else "4-10" if n_ev <= 10 else ">10"))
         ck.hist("logging:outcome=" + (m_loud[0][0] if m_loud[0][0] == "ok" else
-                                      "err:" + (m_loud[0][3] if m_loud[0][3].startswith("Undefined") else "@error")))
-        for t in re.findall(r"\b([FIMUNPLB])\b", toks):
-            ck.hist("logging:stmt=" + t)
+                                      "err:" + (m_loud[0][4] if m_loud[0][4] in ERR_TEXT.values() else "@error")))
+        tl = toks.split()
+        for i, t in enumerate(tl):
+            if t in ("F", "I", "M", "U", "N", "P", "L", "B", "C", "H", "K", "T"):
+                ck.hist("logging:stmt=" + t)
+            elif t == "Y":
+                ck.hist("logging:stmt=" + ("@forward" if tl[i + 3] == "1" else "@use"))
+            elif t == "p":
+                ck.hist("logging:value-pair")
+        if re.search(r"B \[[^\[\]]*P ", toks):
+            ck.hist("logging:@import-nested-in-style-rule")
+        for key, n in layout.items():
+            ck.hist("logging:layout:" + key, n)
+        evfiles = {e[1] for e in m_loud[1]}
+        if len(evfiles) > 1:
+            ck.hist("logging:events-from-several-files")
+        if any(e[3] > 40 for e in m_loud[1]):
+            ck.hist("logging:event-col>40")
+        if any(any(ord(ch) > 127 or ch == "\t" for ch in texts[e[1]].split("\n")[e[2] - 1][:e[3] - 1]) for e in m_loud[1]):
+            ck.hist("logging:event-after-multibyte-or-tab-on-its-line")
         if idx % 211 == 0:
             ck.sample({"kind": "logging", "main.scss": texts["main.scss"][:400], "model_trace": outs[2 * idx][:300]})
         problems = []
-        # (b) tie, loud and quiet
+        # (b) tie, loud and quiet: outcome, and the exact ordered list of (kind, file, line, col, message)
         for label, a, m in (("loud", a_loud, m_loud), ("quiet", a_quiet, m_quiet)):
             io, ie = impl_outcome(a), impl_events(a)
             if a.get("status") in ("timeout", "abort"):
                 ck.hist("logging:" + a.get("status"))
                 continue
-            if io != m[0] or ie != m[1]:
+            if not outcome_matches(io, m[0]) or ie != m[1]:
                 ck.cov["model_disagreements"] += 1
                 problems.append({"what": f"trace/outcome differs from the model ({label})",
                                  "impl": {"outcome": io, "events": ie}, "model": {"outcome": m[0], "events": m[1]}})
@@ -393,12 +630,10 @@ def run_logging(ck, pool, n_programs, failing, first=True):
                                  "captured": a["captured"][:300]})
             if label == "quiet" and ie:
                 problems.append({"what": "events reached the Logger under quiet", "events": ie})
-            for k, f, l, msg in ie:
-                src_lines = texts.get(f, "").split("\n")
-                word = "@debug" if k == "debug" else "@warn"
-                if not (1 <= l <= len(src_lines) and src_lines[l - 1].strip().startswith(word)):
-                    problems.append({"what": "event does not carry the file/line of a directive of its kind",
-                                     "event": (k, f, l, msg)})
+            for k, f, l, c, msg in ie:
+                if (k, f, l, c) not in expect:
+                    problems.append({"what": "event does not carry the file/line/column of the value of a directive "
+                                             "of its kind (as the printer placed it)", "event": (k, f, l, c, msg)})
         if a_loud.get("status") == "ok" and a_quiet.get("status") == "ok" and a_loud.get("css") != a_quiet.get("css"):
             problems.append({"what": "CSS differs between quiet and not quiet"})
         if nj == 4:
@@ -502,6 +737,91 @@ def multi_file(rng):
     pad = "".join(rng.choice(MB + ["p"]) for _ in range(rng.randrange(0, 4)))
     files = {"main.scss": main, rng.choice(["_dep.scss", "dep.scss"]): f"// {pad}\n" + bad}
     return {"files": files, "entry": "main.scss", "tag": "multi-file"}
+
+
+
+SITE_KINDS = ["used-file-top-level", "used-file-function-called-from-entry", "imported-file-function-called-from-entry",
+              "forwarded-file-mixin", "use-with-configuration", "media-query-interpolation", "interpolated-selector",
+              "end-of-input", "bom-file", "crlf-file", "multibyte-before-site", "load-css-file",
+              "content-block-run-by-other-file", "extend-in-imported-file", "indented-syntax-dependency",
+              "plain-css-import"]
+
+
+def site_cases(rng, n):
+    """Errors whose *site* is of a named kind (round 3, item 3): where the failing construct sits relative to
+    the entry file, to interpolation, to the end of the input and to byte/character differences.  Each case
+    goes through every check of `run_failing`; per kind the evidence counts how often the location predicate
+    was evaluated (and held) on grass's own error and which file was blamed."""
+    out = []
+    for i in range(n):
+        kind = SITE_KINDS[i % len(SITE_KINDS)]
+        a, b = rng.choice(MB + ["x"]), rng.choice(MB + ["y"])
+        pad = "".join(rng.choice(MB + ["p", " "]) for _ in range(rng.randrange(0, 5)))
+        head = rng.choice(["", f"// {pad}\n", f"/* {pad} */ ", f"/* {pad} */\n\n"])
+        bad_expr = rng.choice(["1 + ", "$nope", f'"{a}" * 2', "(1 / 0) + 1px + 1em", "f(", f"${a}{b}", "1px + 1s", "map-get(1, 2)"])
+        files, want = None, None
+        if kind == "used-file-top-level":
+            files = {"main.scss": f'{head}@use "dep";\na {{ b: c }}\n', "_dep.scss": f"{head}a {{\n  b: {bad_expr};\n}}\n"}
+            want = "_dep.scss"
+        elif kind == "used-file-function-called-from-entry":
+            files = {"main.scss": f'{head}@use "dep";\na {{ b: dep.f({rng.randrange(3)}); }}\n',
+                     "_dep.scss": f"{head}@function f($v) {{\n  $w: {bad_expr};\n  @return $w;\n}}\n"}
+            want = "_dep.scss"
+        elif kind == "imported-file-function-called-from-entry":
+            files = {"main.scss": f'{head}@import "dep";\n.{a} {{ b: f({rng.randrange(3)}); }}\n',
+                     "_dep.scss": f"{head}@function f($v) {{ @if $v == 1 {{ @return 1; }} @return {bad_expr}; }}\n"}
+            want = "_dep.scss"
+        elif kind == "forwarded-file-mixin":
+            files = {"main.scss": f'{head}@use "mid" as *;\na {{ @include m; }}\n', "_mid.scss": f'{head}@forward "dep";\n',
+                     "_dep.scss": f"{head}@mixin m {{ {a}: {bad_expr}; }}\n"}
+            want = "_dep.scss"
+        elif kind == "use-with-configuration":
+            v = rng.randrange(4)
+            main = [f'@use "dep" with ($nope: 1);', f'@use "dep" with ($c: {bad_expr});', '@use "dep" with ($c: 1, $c: 2);',
+                    f'@use "dep" with ($c: "{a}");\na {{ b: dep.$c + {bad_expr}; }}'][v]
+            files = {"main.scss": head + main + "\n", "_dep.scss": f"{head}$c: 0 !default;\n.{b} {{ d: $c }}\n"}
+            want = "main.scss"
+        elif kind == "media-query-interpolation":
+            q = rng.choice([f'"{a}["', f'"({a}: "', '"screen and"', f'"not {a} and ("', '"(a: b) or"', f"'{a},,'"])
+            files = {"main.scss": f"{head}$q: {q};\n@media #{{$q}}{rng.choice(['', ' and (min-width: 1px)'])} {{ a {{ b: c }} }}\n"}
+            want = "main.scss"
+        elif kind == "interpolated-selector":
+            q = rng.choice([f'"{a}[,"', f'"{a},,"', '"> >"', f'":not({a}"', f'"{a}::"', '"%"', f'".{a}("'])
+            files = {"main.scss": f"{head}$q: {q};\n{rng.choice(['a', '.' + b, ''])}#{{$q}} {{ b: c }}\n"}
+            want = "main.scss"
+        elif kind == "end-of-input":
+            tail = rng.choice(["a { b: c", f'a {{ b: "{a}', "@if true {", f"/* {a}", "a { b: (1 + ", "@function f() {", f"a {{ b: url({a}",
+                               f".{a} {{ @include m(", f"@mixin m {{ .{b} {{", "a { b: c; }\n@media", "$x: (a: 1, b:", "@use", f"a[{a}", f"a {{ b: #{{{a}"])
+            files = {"main.scss": head + tail + rng.choice(["", "\n", " ", "\r\n"])}
+            want = "main.scss"
+        elif kind == "bom-file":
+            files = {"main.scss": "\ufeff" + f"{head}a {{\n  b: {bad_expr};\n}}\n"}
+            want = "main.scss"
+        elif kind == "crlf-file":
+            files = {"main.scss": f"{head}a {{\n  /* {a} */ b: {bad_expr};\n}}\n".replace("\n", "\r\n")}
+            want = "main.scss"
+        elif kind == "multibyte-before-site":
+            files = {"main.scss": f'{head}.{a}{b} {{ {a}-{b}: "{pad}" + {bad_expr}; }}\n'}
+            want = "main.scss"
+        elif kind == "load-css-file":
+            files = {"main.scss": f'{head}@use "sass:meta";\na {{ @include meta.load-css("dep"); }}\n',
+                     "_dep.scss": f"{head}.{a} {{ b: {bad_expr}; }}\n"}
+            want = "_dep.scss"
+        elif kind == "content-block-run-by-other-file":
+            files = {"main.scss": f'{head}@use "dep";\n@include dep.m {{\n  .{a} {{ b: {bad_expr}; }}\n}}\n',
+                     "_dep.scss": f"{head}@mixin m {{ .{b} {{ @content; }} }}\n"}
+            want = "main.scss"
+        elif kind == "extend-in-imported-file":
+            files = {"main.scss": f'{head}@import "dep";\n', "_dep.scss": f"{head}.{a} {{ @extend {rng.choice(['.' + b + ' .c', b + ' > d', '.' + b + ':not(', ''])}; }}\n"}
+            want = "_dep.scss"
+        elif kind == "indented-syntax-dependency":
+            files = {"main.scss": f'{head}@import "dep";\n', "_dep.sass": f"// {pad}\n.{a}\n  b: {bad_expr}\n"}
+            want = "_dep.sass"
+        else:
+            files = {"main.scss": f'{head}@import "dep";\n', "dep.css": f"/* {pad} */\n.{a} {{ b: {rng.choice(['$x', '1 + 1', '#{1}', 'f($y)'])}; @include m; }}\n"}
+            want = "dep.css"
+        out.append({"files": files, "entry": "main.scss", "tag": "site:" + kind, "want_file": want})
+    return out
 
 
 LONG_TARGETS = [80, 120, 128, 200, 256, 1000, 4096]
@@ -616,9 +936,14 @@ def gen_failing(ck, tier, cs):
         cases.append({"src": interp_templates(rng), "tag": "interp"})
     for _ in range(100 if quick else 2000):
         cases.append(multi_file(rng))
+    cases += site_cases(rng, 480 if quick else 8000)
     cases += relex_cases(rng, 250 if quick else 5000)
     cases += long_line_cases(rng, 340 if quick else 6000)
     return cases
+
+
+def msg_class(m):
+    return re.sub(r"[\"'`$].*|\d+", "…", m)[:32]
 
 
 def case_job(c, unicode):
@@ -694,6 +1019,12 @@ def run_failing(ck, pool, cases, failing, ascii_every=1):
         row = verdict_rows[i]
         a = row["ans"][0 if u in (True, None) else 1]
         if what == "locok":
+            if o == "ok 1" and u:
+                ck.located[msg_class(a["err"]["message"])] += 1
+                tg = row["case"]["tag"]
+                if tg.startswith("site:"):
+                    ck.sites[tg[5:]] += 1
+                    ck.hist("error-site:" + tg[5:] + ":blamed=" + ("expected file" if a["err"]["file"] == row["case"].get("want_file") else a["err"]["file"]))
             if o != "ok 1":
                 row["problems"].append({"what": "location is not a pair of positions of the named file, in order "
                                                 "(spanLocOk false)", "unicode": u, "err": a.get("err"), "driver": o})
@@ -782,7 +1113,7 @@ def run_failing(ck, pool, cases, failing, ascii_every=1):
         ck.hist("failing:gen=" + tag)
         ck.hist("failing:status=" + str(sts[0]))
         if a1.get("status") == "err" and a1.get("err", {}).get("kind") == "parse":
-            ck.msgs[re.sub(r"[\"'`$].*|\d+", "…", a1["err"]["message"])[:32]] += 1
+            ck.msgs[msg_class(a1["err"]["message"])] += 1
             if a1["err"]["begin_line"] != a1["err"]["end_line"]:
                 ck.hist("failing:multi-line-span")
             if any(ord(ch) > 127 for ch in (file_text(c, a1["err"]["file"]) or "").split("\n")[a1["err"]["begin_line"]]):
@@ -798,7 +1129,7 @@ def run_failing(ck, pool, cases, failing, ascii_every=1):
 # part C — direct-only: nothing but the Logger, whatever is compiled
 # ----------------------------------------------------------------------------------------------
 def std_text_of(logs):
-    return [(l["kind"], l["file"], l["line"], l["msg"]) for l in logs]
+    return [(l["kind"], l["file"], l["line"], l["col"], l["msg"]) for l in logs]
 
 
 def run_capture(ck, pool, items, failing, label):
@@ -933,6 +1264,8 @@ def run(tier, seed):
     ck = Check("C19", tier, seed)
     ck.other_panics = {}
     ck.msgs = collections.Counter()
+    ck.located = collections.Counter()
+    ck.sites = collections.Counter()
     ck.aborts = []
     ck.cov["rule"] = (
         "failing inputs: regression corpus (D19/D23/D24), @error table, every golden `error!` case, token-level "
@@ -940,18 +1273,27 @@ def run(tier, seed):
         "swap), every prefix of small inputs, bracket removal, templates with multi-byte characters around the error "
         "site, interpolation-heavy selectors/@media/@at-root/@keyframes/@extend/selector functions with values of "
         "about the byte length of their source, two-file projects failing in the imported file, re-lexed selectors "
-        "ending in `[`; each compiled in BOTH unicode modes. Logging programs: random projects (1-3 files) over "
-        "{@debug,@warn,@error,@for to/through both directions,@if/@else,style rule,@mixin/@include (with argument),"
-        "@function/call,@import (incl. repeated),undefined variable/mixin} x quiet off/on (+ StdLogger for every 4th). "
+        "ending in `[`; each compiled in BOTH unicode modes. Logging programs: random projects (1-5 files: entry, "
+        "imported files, module files; the last one possibly in a directory) over {@debug,@warn,@error,@for to/through "
+        "both directions,@each over literal lists,counting @while,@if/@else,style rule,@mixin/@include (with argument, "
+        "with content block/@content),@function/call,values `a b` with two calls,@import (repeated, nested in a style "
+        "rule),@use as */@forward (several times the same file),undefined variable/mixin, content block to a mixin "
+        "without @content} printed in varying lay-outs (LF/CRLF, tab/space indentation, comment or statement with "
+        "multi-byte characters before the directive on its line, blanks/tab/comments/line breaks between the name and "
+        "the value, line breaks inside the value) x quiet off/on (+ StdLogger for every 4th); compared: outcome and the "
+        "exact ordered list of (kind, file, line, column, message). "
         "A case is distinct by its text (failing) or token stream (logging); non-trivial = grass reported a located "
         "error (failing) / the model's trace has at least one event (logging).")
     ck.assumptions = [
-        "one directive per line in generated logging programs, so (file, line) identifies a directive's span",
+        "a directive is identified by the byte offset of its `@` in its file (the key of the trace theorems); line and "
+        "column of its value are computed by the model from the file's text (exprStart/eventLoc)",
         "file names as the runner's in-memory Fs reports them; `stdin` for from_string",
         "panics outside the diagnostics path (not in codemap/lexer.rs/error.rs/lib.rs), worker aborts (stack overflow "
         "of unbounded recursion) and timeouts are C01's concern: counted and listed under notes, not judged here",
-        "grass reports the line of the directive's *expression* (parse/stylesheet.rs:400,1396); the generators print "
-        "the expression on the directive's line",
+        "grass reports the place of the directive's *value* (parse/stylesheet.rs:397-404,1394-1401), which may be on a "
+        "later line than the `@`; only the begin of the span is observable through the runner's Logger",
+        "mixin/function names are unique in a generated project; @use only `as *` without `with`; imported files do not "
+        "@use; an `Undefined variable` inside a value is only generated in values printed on the directive's line",
     ]
     t0 = time.time()
     ck.do_prove(cores=("diag",))
@@ -988,6 +1330,11 @@ def run(tier, seed):
     for m, n in ck.msgs.most_common(30):
         ck.hist("failing:msg=" + m, n)
     ck.hist("failing:distinct-message-classes", len(ck.msgs))
+    # item 3: per error-message class / per error-site kind, how often the Lean location predicate (inside the
+    # named file, on positions of its text, begin <= end) was evaluated on grass's own error and held
+    ck.cov["location_predicate_held_per_message_class"] = dict(ck.located.most_common())
+    ck.cov["location_predicate_held_per_error_site_kind"] = {k: ck.sites.get(k, 0) for k in SITE_KINDS}
+    ck.cov["error_site_kinds_never_hit"] = [k for k in SITE_KINDS if not ck.sites.get(k)]
     def direct_failures():
         return [f for f in failing if any(not p.get("tie") for p in f["problems"])]
 
@@ -1020,6 +1367,8 @@ def replay(path):
     ck = Check("C19", "quick", 0)
     ck.other_panics = {}
     ck.msgs = collections.Counter()
+    ck.located = collections.Counter()
+    ck.sites = collections.Counter()
     ck.aborts = []
     ck.do_build_runner()
     pool = RunnerPool(2)
@@ -1027,7 +1376,7 @@ def replay(path):
     if "program" in r:
         jobs = [compile_job(files=r["files"], entry=r["entry"]), compile_job(files=r["files"], entry=r["entry"], quiet=True)]
         ans = pool.map(jobs, timeout=20)
-        outs = driver([f"diag trace 0 0 {r['program']}", f"diag trace 1 0 {r['program']}"])
+        outs = driver([f"diag tracex 0 0 {r['program']}", f"diag tracex 1 0 {r['program']}"])
         for lbl, a, o in zip(("loud", "quiet"), ans, outs):
             print(lbl, "grass :", impl_outcome(a), impl_events(a), "captured=", repr(a.get("captured")))
             print(lbl, "model :", o)
